@@ -327,7 +327,7 @@ class Case:
 
 
 class Interp:
-    def __init__(self, facts, stubs=None, max_depth=8, fuel=400000, max_cases=4000, max_loop=64):
+    def __init__(self, facts, stubs=None, max_depth=60, fuel=400000, max_cases=4000, max_loop=64):
         from . import models
         self.F = facts
         self.models = dict(models.MODELS)
@@ -405,6 +405,8 @@ class Interp:
         key = item.key if hasattr(item, "key") else item
         if inst is None:
             inst = self.F.default_instance(key)
+        elif inst is False:
+            inst = None  # generic mode: calls as rustc resolved them in the generic body
         body = self.F.bodies.get(key)
         if body is None or not body.get("thir"):
             return self.top("no THIR body for %s" % key)
@@ -482,6 +484,8 @@ class Interp:
         """Local item a call dispatches to, or None."""
         rk = fn.get("resolved_key")
         if rk and rk in self.F.bodies:
+            if self.F.items[rk].kind == "Closure":
+                return None  # a closure call: evaluated through the closure value (captured environment)
             return self.F.items[rk]
         if fn["key"] in self.F.bodies:
             return self.F.items[fn["key"]]
@@ -509,7 +513,7 @@ class Interp:
             if cid is None:
                 continue
             ci = F.instances[cid]
-            if ci["local"] and ci["def"] in F.bodies and ci["kind"] == "item":
+            if ci["local"] and ci["def"] in F.bodies and ci["kind"] == "item" and F.items[ci["def"]].kind != "Closure":
                 item = F.items[ci["def"]]
                 st = self.rule_stubs.get(item.qname)
                 if st is not None:
@@ -676,7 +680,7 @@ class Frame:
             if isinstance(bv, Adt):
                 name = e["name"]
                 if name not in bv.fields:
-                    bv.fields[name] = Sym("%s.%s" % (_short(bv) if False else bv.variant, name), e["ty"])
+                    bv.fields[name] = Sym("%s.%s" % (getattr(bv, "sym_origin", bv.variant), name), e["ty"])
                 return Place(bv, name)
             if isinstance(bv, Tup):
                 return Place(bv, e["fidx"])
@@ -763,7 +767,7 @@ class Frame:
             for sp in pat["subs"]:
                 name = sp["name"]
                 if name not in v.fields:
-                    v.fields[name] = Sym("%s.%s" % (v.variant, name), sp["p"]["ty"])
+                    v.fields[name] = Sym("%s.%s" % (getattr(v, "sym_origin", v.variant), name), sp["p"]["ty"])
                 if not self.bind(sp["p"], Place(v, name)):
                     return False
             return True
@@ -784,6 +788,7 @@ class Frame:
                 elif t.get("k") == "adt":
                     a = self.I.F.adts.get(t["adt"])
                     v.resolved = Adt(t["adt"], a["variants"][0]["name"] if a else "?", {})
+                    v.resolved.sym_origin = v.name
                     v = v.resolved
             if isinstance(v, Tup):
                 for sp in pat["subs"]:
@@ -794,7 +799,7 @@ class Frame:
                 for sp in pat["subs"]:
                     name = sp["name"]
                     if name not in v.fields:
-                        v.fields[name] = Sym("%s.%s" % (v.variant, name), sp["p"]["ty"])
+                        v.fields[name] = Sym("%s.%s" % (getattr(v, "sym_origin", v.variant), name), sp["p"]["ty"])
                     if not self.bind(sp["p"], Place(v, name)):
                         return False
                 return True
@@ -854,7 +859,7 @@ class Frame:
             variants = self.I.F.variants(pat["adt"])
             c = self.I.decide("variant(%s)" % v.name, variants)
             v.resolved = Adt(pat["adt"], variants[c], {})
-            v.resolved.sym_origin = v.name
+            v.resolved.sym_origin = "%s.%s" % (v.name, variants[c])
             return v.resolved
         return v
 
